@@ -50,6 +50,19 @@ def c06_worker(args, scratch):
                     res["violations"].append(["kernel-policy-map-value-wrong", {"key": kx, "value": v, "want": val}])
             cnt["policy_map_checks"] = cnt.get("policy_map_checks", 0) + 1
         check_policy("start-up")
+        # the agent's own process is exempt in the LIVE maps (the ones of the start attempt that succeeded): its pid is in the skip map and
+        # its own connect to a listed destination goes to the host, not to its own listener
+        sk = {e[0] for e in k.map("skip_process_map")["entries"]}
+        want_pid = realbpf.hexwords(k.shim.proc.pid)
+        cnt["skip_map_checks"] = cnt.get("skip_map_checks", 0) + 1
+        res["evaluations"] += 1
+        if want_pid not in sk:
+            res["violations"].append(["kernel:agent-pid-missing-from-live-skip-map-after-a-retried-start", {"skip_map": sorted(sk), "agent_pid": k.shim.proc.pid, "failed_attempt": k.failed_attempt}])
+        own = k.shim.call("hyper_get", url="http://169.254.169.254:80/own-call-after-retried-start")
+        at_mock = [u for u in k.mocks["imds"].snapshot() if u.target == b"/own-call-after-retried-start"]
+        cnt["agent_own_connects_observed"] = cnt.get("agent_own_connects_observed", 0) + 1
+        if not at_mock:      # diverted: the listener has no record for it and answers 421 itself, the host sees nothing
+            res["violations"].append(["kernel:agent-own-connect-was-diverted-to-its-listener", {"reply": str(own)[:300], "seen_at_host": len(at_mock)}])
         n = 0
         for round_ in range(args["rounds"]):
             if round_ > 0:
